@@ -198,6 +198,7 @@ fn c15_source_test(raw: &RawText, st: &mut Stats) -> Result<(), Failure> {
     match c15_judge_source(&r.text)? {
         true => {
             st.class("source:accepted");
+            text_size_classes(&r.text, st);
             if r.text.len() >= 200 && !r.text.is_ascii() {
                 st.nontrivial(&r.text);
                 if st.want_sample() {
@@ -695,6 +696,7 @@ fn c12_test(raw: &RawText, st: &mut Stats) -> Result<(), Failure> {
         None => st.discard("not accepted by generate"),
         Some((n, multibyte, max_on_one)) => {
             st.class(&format!("attributes:{}", n.min(6)));
+            text_size_classes(&r.text, st);
             let depth2 = nm.nt_attrs.iter().flatten().chain(nm.term_attrs.iter()).any(|a| nesting_depth(a) >= 3);
             if !nm.term_attrs.is_empty() {
                 st.class("attrs-on:terminal-enum");
@@ -856,6 +858,7 @@ fn c13_test(raw: &RawText, st: &mut Stats) -> Result<(), Failure> {
         None => st.discard("not accepted by generate"),
         Some((depth, arity, sites)) => {
             st.class(&format!("max-type-depth:{}", depth.min(6)));
+            text_size_classes(&r.text, st);
             if depth >= 2 && arity >= 2 && sites >= 2 {
                 st.nontrivial(&r.text);
                 if st.want_sample() {
